@@ -23,7 +23,9 @@ CONSTANTS NKeys,      \* key universe 0..NKeys-1
           PreKinds,   \* subset of {"absent", "kv", "bucket"}
           Acts,       \* subset of {"keep", "put", "del", "mkb", "delb", "gocb"}
           Ends,       \* subset of {"commit", "drop", "reopen"}
-          ReadBack    \* BOOLEAN: full read API after every operation of tx2
+          ReadBack,   \* BOOLEAN: full read API after every operation of tx2
+          QKeys       \* set of keys: if non-empty, every seek / re-seek key and every pair of
+                      \* range bounds over QKeys is queried mid-transaction and after commit (C08)
 
 VARIABLES phase, pre
 
@@ -66,6 +68,25 @@ Reads(t) ==
          ROp(t, "range", Path, "I", Active[(N + 1) \div 2], "U", 0),
          Op(t, "buckets", Path, 0, 0), Op(t, "kvpairs", Path, 0, 0), Op(t, "again", Path, 0, 0)>>
 
+BoundKinds == {"I", "E", "U"}
+QSeq == SetToSortSeq(QKeys, LAMBDA x, y : x < y)
+QueryOps(t) ==
+    IF QKeys = {} THEN <<>>
+    ELSE Flatten([i \in 1..Len(QSeq) |->
+            <<Op(t, "seek", Path, QSeq[i], 0),
+              [k |-> QSeq[i]] @@ ROp(t, "reseek", Path, "U", QSeq[1 + ((i * 7) % Len(QSeq))], "U", i % 3)>>])
+         \o SetToSeq({ROp(t, "range", Path, lk, lo, hk, hi) :
+                        lk \in BoundKinds, hk \in BoundKinds, lo \in QKeys, hi \in QKeys})
+         \o <<ROp(t, "rangeb", Path, "E", QSeq[1], "I", QSeq[Len(QSeq)]),
+              ROp(t, "rangekv", Path, "I", QSeq[1], "E", QSeq[Len(QSeq)]),
+              Op(t, "buckets", Path, 0, 0), Op(t, "kvpairs", Path, 0, 0), Op(t, "again", Path, 0, 0)>>
+\* all of them read one listing: computed once per tree (same operator Do itself uses)
+AllQueries(t, tree) ==
+    IF QKeys = {} \/ NavErr(tree, Path) # "" THEN <<>>
+    ELSE LET lst == Listing(tree, Path)
+             qs  == QueryOps(t)
+         IN  [i \in 1..Len(qs) |-> qs[i] @@ [exp |-> ReadRes(lst, qs[i])]]
+
 ActOps(t, ac) ==
     Flatten([i \in 1..N |->
         (CASE ac[i] = "put"  -> <<Op(t, "put", Path, Active[i], 1 + (i % (NVals - 1)))>>
@@ -79,8 +100,7 @@ ActOps(t, ac) ==
 
 \* tx3: everything visible, driven by the expected tree
 ProjOps(t, tree) ==
-    LET bks == SetToSortSeq({p \in DOMAIN tree : tree[p].k = "b"},
-                            LAMBDA x, y : Len(x) < Len(y) \/ (Len(x) = Len(y) /\ ToString(x) < ToString(y)))
+    LET bks == SetToSeq({p \in DOMAIN tree : tree[p].k = "b"})
     IN  Flatten([i \in 1..Len(bks) |->
           IF bks[i] = <<>> THEN <<Op(t, "buckets", <<>>, 0, 0)>>
           ELSE <<Op(t, "scan", bks[i], 0, 0), Op(t, "nextint", bks[i], 0, 0)>>])
@@ -95,11 +115,11 @@ Behaviour(pr, ac, end) ==
         final == IF end = "drop" THEN r1.tree ELSE r2.tree
         r3 == Run(final, FALSE, ProjOps(3, final), <<>>)
     IN  <<Begin_(1, TRUE)>> \o r1.steps \o <<End_("commit", 1), [a |-> "check"]>>
-        \o <<Begin_(2, TRUE)>> \o r2.steps
+        \o <<Begin_(2, TRUE)>> \o r2.steps \o AllQueries(2, r2.tree)
         \o (CASE end = "commit" -> <<End_("commit", 2), [a |-> "check"]>>
               [] end = "drop"   -> <<End_("drop", 2)>>
               [] OTHER          -> <<End_("commit", 2), [a |-> "reopen"], [a |-> "check"]>>)
-        \o <<Begin_(3, FALSE)>> \o r3.steps \o <<End_("drop", 3)>>
+        \o <<Begin_(3, FALSE)>> \o r3.steps \o AllQueries(3, final) \o <<End_("drop", 3)>>
 
 \* an action is only meaningful on a matching initial kind or as an error probe; keep all
 GInit == phase = 0 /\ pre = <<>>
